@@ -143,12 +143,13 @@ PROPS = {
         "level_text": "Props/C04: head_is_incoming_block — for every state, block and handler failure point every delivered event names the incoming block as cursor head (no hypothesis); irreversible_lib_is_itself, switch_events_lib — cursor LIB of Irreversible events is the block itself, of Undo/re-delivered New events the forkable's cursor LIB, and all undos of a batch name the same junction; junction_is_common_ancestor (buffer of well-formed blocks with growing heights): the undo list is the consumer's chain above the junction, the redo list the adopted chain above it, the junction the top of their common part, i.e. what the consumer rests on after the undos; segments_meet_at_junction holds for any buffer. Cursor step/block = the event's is the encoding of the model's events and is compared field by field with the implementation (CURSORMISMATCH marker). LIB-height monotonicity along a stream and 'never above the block' are decided by the Lean cursor monitor on every trace; burst and file cursors by the C05/C06/C09 suites.", "level_note": LEVEL_NOTE_COMMON, "explanation": 'as C01',
     },
     "C05": {
-        "suites": [("hubburst", 2500, 30000)], "props": ["C05"], "level": "other",
+        "suites": [("hubburst", 2500, 30000)], "props": ["C05"], "level": "proof",
         "projection": proj_forkable, "nontrivial": lambda suite, case, impl: any(l.startswith("impl b undo") or l.startswith("impl b irr") for l in case["lines"]),
         "rule": "cases = forkable histories as in C01-C04 (hub-like hold-until-LIB configuration 2 times in 3, all steps delivered); after a third of the blocks: a canonical snapshot, 2 requests by number around the window, sometimes a with-forks request, and up to 3 resumptions from cursors delivered earlier (New, Undo, 1/3 of the Irreversible ones; biased to recent ones), a third of them also through-cursor from a start around/below the cursor block. distinct = sha1 of header+ops; non-trivial = some burst contains an Undo or an Irreversible event",
         "trusted_base": FORKABLE_TB,
         "technique": "Lean 4 model of blocksFromCursor/blocksThroughCursor + pure-consumer monitor (Lean): burst applied to the consumer state at the cursor must end on the hub's live chain + differential correspondence of every burst",
-        "level_text": "Props/C05 (kernel-checked, all hub states and cursors): for a cursor whose block and LIB lie on the hub's retained canonical chain the burst delivers nothing at or below the cursor LIB (nothing_at_or_below_cursor_lib), every canonical block above the cursor block exactly once, in chain order, New above the hub LIB and new-and-irreversible up to it (everything_above_cursor_block, fastPath_in_chain_order, nothing_new_below_cursor_block); final_events_exact: the irreversible events are exactly the canonical final blocks above the cursor LIB; refused_below_window / refused_without_chain: no source rather than a partial one; fork_cursor_shape: for a cursor on a fork the burst is the undo walk (newest first, all naming the junction) followed by the burst of the junction cursor. That the burst applied to the *consumer state at the cursor* leaves it on the hub's chain for every history is NOT a theorem: it is decided by the Lean consumer-at-cursor monitor over every burst of the correspondence suite.", "level_note": LEVEL_NOTE_COMMON, "explanation": "kernel-checked theorems about the burst functions for all inputs + a Lean pure-consumer monitor evaluated on the implementation's bursts (2500/30000 histories with up to 3 resumptions each) + differential comparison of every burst with the model",
+        "level_text": "Props/C05 (kernel-checked, all hub states and cursors): burst_takes_consumer_to_hub_chain — for a New cursor whose block and LIB lie on the hub's retained canonical chain, the burst applied to the consumer that stood at the cursor (resting on the cursor LIB, holding the canonical blocks up to the cursor block) ends exactly on the hub's current chain and final block: finalised pending blocks are announced oldest first, missed final blocks arrive new-and-irreversible, missed reversible blocks as New, nothing twice (the chain above the cursor LIB is split by height into four zones; the consumer semantics CS is the one of C01 extended with new-and-irreversible events). Also: nothing_at_or_below_cursor_lib, everything_above_cursor_block, fastPath_in_chain_order, nothing_new_below_cursor_block, final_events_exact (a final-only consumer gets exactly the canonical final blocks above the cursor LIB), refused_below_window / refused_without_chain (no source rather than a partial one), fork_cursor_shape (cursor on a fork: undo walk, newest first, all naming the junction, then the burst of the junction cursor). For Undo cursors and cursors on forks the consumer-level statement is decided by the Lean consumer-at-cursor monitor over every burst of the correspondence suite.",
+        "level_note": LEVEL_NOTE_COMMON, "explanation": "kernel-checked theorems about the burst functions for all inputs + a Lean pure-consumer monitor evaluated on the implementation's bursts (2500/30000 histories with up to 3 resumptions each) + differential comparison of every burst with the model",
     },
     "C06": {
         "suites": [("resolver", 2000, 25000)], "props": ["C06"], "level": "proof",
